@@ -279,9 +279,14 @@ static void run_ops(unit_t *me)
                     ;
                 break;
             }
-            case 'Z': /* sleep 2 ms (the caller keeps its stream busy meanwhile) */
-                usleep(2000);
+            case 'Z': { /* "Z<i>": keep the stream busy, WITHOUT a scheduling point, until the function of unit i
+                         * has finished (at most 5 s); the caller's next scheduling point then comes after everything
+                         * unit i has issued */
+                int spins = 0;
+                while (t[1] && !g_u[i].finished && spins++ < 100000)
+                    usleep(50);
                 break;
+            }
             case 'S':
                 vh_note(UEV_OPB, 'S', me->idx, 0);
                 ret = ABT_self_suspend();
